@@ -146,90 +146,121 @@ def gen_case(rng, size=4, source=None):
         header[cols.index("note")] = rng.choice(["taxa", "LANGUAGE", "gloss"])
         kind = "duplicate-canonical"
     case = {"source": source, "kind": kind, "cols": cols, "header": header, "rows": rows}
-    case["q0"] = gen_queries(rng, cols, [])
-    ops, cols1, new = gen_ops(rng, cols, rows, source)
+    ops, cols_after, news, focus = gen_ops(rng, cols, rows, source)
     case["ops"] = ops
-    case["q1"] = gen_queries(rng, cols1, new)
+    case["focus"] = focus
+    case["q0"] = gen_queries(rng, cols, [], focus=focus)
+    # after every operation all views are read again; the steps before the last one use light queries
+    case["qs"] = [gen_queries(rng, cols_after[i], news[i], focus=focus, light=(i < len(ops) - 1))
+                  for i in range(len(ops))]
     return case
 
 
-def gen_queries(rng, cols, new):
+def gen_queries(rng, cols, new, focus=(), light=False):
+    """focus: [(column, spelling)] - columns the history is going to change; they are read through the SAME
+    spelling before and after every step (a stale cache inside the implementation would show)."""
     pick = [c for c in cols if c not in ("doculect", "concept")]
     rng.shuffle(pick)
-    ent = [""] + [spelling(rng, c) for c in (new + pick)[:(2 if rng.random() < 0.25 else 1)]]
-    if rng.random() < 0.2:
+    n_ent = 0 if light else (2 if rng.random() < 0.25 else 1)
+    ent = [""] + [spelling(rng, c) for c in (new + pick)[:n_ent]]
+    for c, sp in focus:
+        if c in cols and sp not in ent:
+            ent.append(sp)
+    if not light and rng.random() < 0.2:
         ent.append(spelling(rng, rng.choice(["doculect", "concept"])))
-    if rng.random() < 0.15:
+    if not light and rng.random() < 0.15:
         ent.append(rng.choice(["zzz", "ISO", "Cogid"]))
     refs = [spelling(rng, "cogid")]
     for c in cols:
-        if c in ("cogids", "partial_ids", "newid", "cogidid") and rng.random() < 0.8:
+        if c in ("cogids", "partial_ids", "newid", "cogidid") and rng.random() < (0.3 if light else 0.8):
             refs.append(spelling(rng, c))
+    for c, sp in focus:                      # a changed cognate-id column is also read as a reference column
+        if c in cols and c in ("cogid", "cogids", "newid", "cogidid") and sp not in refs and rng.random() < 0.7:
+            refs.append(sp)
     items = []
     for c in cols:
         for s in SPELL.get(c, [c]):
             items += [s, s.upper()]
     rng.shuffle(items)
-    items = items[:5] + [spelling(rng, n) for n in new]
-    if rng.random() < 0.3:
+    items = items[:(2 if light else 5)] + [spelling(rng, n) for n in new] + [sp for c, sp in focus if c in cols]
+    if not light and rng.random() < 0.3:
         items.append(rng.choice(["zzz", "iso", "Cogid", "Taxa", ""]))
-    it = [c for c in cols if rng.random() < 0.6]
-    if rng.random() < 0.1:
+    it = [c for c in cols if rng.random() < (0.3 if light else 0.6)]
+    if not light and rng.random() < 0.1:
         it.append(rng.choice(["language", "DOCULECT", "zzz"]))
-    dst = [(refs[0], False), (refs[0], True)]
-    paps = [(refs[0], rng.choice([0, -1, 7])), (refs[0], -1)]
+    dst = [(refs[0], False)] if light else [(refs[0], False), (refs[0], True)]
+    paps = [(refs[0], -1)] if light else [(refs[0], rng.choice([0, -1, 7])), (refs[0], -1)]
     if len(refs) > 1:
-        paps.append((refs[1], -1))
+        paps.append((refs[-1], -1))
         if rng.random() < 0.3:
-            dst.append((refs[1], rng.random() < 0.5))
-    return {"entries": ent, "refs": refs, "items": items, "iter": it, "dst": dst, "paps": paps}
+            dst.append((refs[-1], rng.random() < 0.5))
+    return {"entries": ent, "refs": refs, "items": items, "iter": it, "dst": dst, "paps": paps,
+            "attr": rng.random() < 0.5}
 
 
 def key_of(v):
     return ("L",) + tuple(v) if isinstance(v, list) else ("A", type(v).__name__, v)
 
 
-def gen_ops(rng, cols, rows, source):
-    """0-2 add_entries / renumber steps.  Returns (ops, column names afterwards, new names)."""
-    ops, cols, new = [], list(cols), []
-    n = rng.choice([0, 1, 1, 2])
-    state = {c: [r[1][i] for r in rows] for i, c in enumerate(cols)}
-    for _ in range(n):
-        c = rng.random()
-        if c < 0.35:
-            src = rng.choice([x for x in cols if x in ("cogid", "ipa", "note", "newid")] or ["cogid"])
-            tgt = rng.choice(["", "newid", "NewID" if rng.random() < 0.2 else "newid"])
-            name = (tgt or src + "id").lower()
-            override = rng.random() < 0.15
-            if name in cols and not override:
-                continue                                         # would ask the interactive question
-            ops.append({"kind": "renum", "source": spelling(rng, src), "target": tgt, "override": override})
-            vals = state[src]
-            strs = sorted(set(str(v) for v in vals))
-            conv = {s: i + 1 for i, s in enumerate(strs)}
-            if "" in conv:
-                conv[""] = 0
-            state[name] = [conv[str(v)] for v in vals]
-            if name not in cols:
-                cols.append(name)
-                new.append(name)
-        else:
-            # ("iso" after a column was added under its alias "isocode": the name isocode is then both a
-            #  column of its own and a configured alias of iso - no consistent reading exists; see notes)
-            cands = [x for x in ["xx", "Foo", "tokens", "cogids", "iso", "langid", "partial_ids", "yy"]
-                     if x.lower() not in cols and not (x == "iso" and "isocode" in cols)]
-            override = rng.random() < 0.2
-            if override and rng.random() < 0.7:
-                entry = rng.choice([x for x in cols if x not in ("doculect", "concept")])
-            else:
-                entry = rng.choice(cands)
-            if rng.random() < 0.08:
-                entry = rng.choice(["isocode", "TOKENS", "Partial_IDs"])
-                if entry.lower() in cols or "iso" in cols and entry == "isocode":
-                    continue
-            src = rng.choice(cols)
-            vals = state[src]
-            distinct = list({key_of(v): v for v in vals}.values())
+NEWVALS = {"cogid": [0, 4, 5, 77, "", "a"], "ipa": ["", "!x", "zz", "hant", "a"], "note": ["", "!", "x", "zz", 3],
+           "cogids": [[], [1], [5, 5], [2, 77]], "tokens": [[], ["h"], ["u", "f"]], "newid": [0, 1, 9], "cogidid": [0, 1, 9]}
+
+
+class _Hist:
+    """bookkeeping while a history is generated: column names and values after every step"""
+
+    def __init__(self, rng, cols, rows, source):
+        self.rng, self.source = rng, source
+        self.cols = list(cols)
+        self.ids = [r[0] for r in rows if r[0] > 0]
+        self.state = {c: [r[1][i] for r in rows if r[0] > 0] for i, c in enumerate(cols)}
+        self.ops, self.cols_after, self.news, self.focus = [], [], [], []
+        self.spell = {}
+
+    def sp(self, col):                        # one spelling per column for the whole history
+        if col not in self.spell:
+            self.spell[col] = spelling(self.rng, col)
+        return self.spell[col]
+
+    def focus_on(self, col):
+        if col not in [c for c, _ in self.focus]:
+            self.focus.append((col, self.sp(col)))
+
+    def push(self, op, new=()):
+        self.ops.append(op)
+        for n in new:
+            if n not in self.cols:
+                self.cols.append(n)
+        self.cols_after.append(list(self.cols))
+        self.news.append([n for n in new])
+
+    def renum(self, src, tgt, override, fixed_spelling=False):
+        name = (tgt or src + "id").lower()
+        if name in self.cols and not override:
+            return False                                      # would ask the interactive question
+        if name in ("doculect", "concept") or src not in self.cols:
+            return False
+        source = self.sp(src) if fixed_spelling else spelling(self.rng, src)
+        if not tgt and source != source.lower():              # target = source + 'id' keeps the spelling
+            source = source.lower()
+        vals = self.state[src]
+        strs = sorted(set(str(v) for v in vals))
+        conv = {s: i + 1 for i, s in enumerate(strs)}
+        if "" in conv:
+            conv[""] = 0
+        new = [] if name in self.cols else [name]
+        self.state[name] = [conv[str(v)] for v in vals]
+        self.push({"kind": "renum", "source": source, "target": tgt, "override": override}, new)
+        return True
+
+    def add(self, entry, src, override, table=None, default=None):
+        rng = self.rng
+        name = entry.lower()
+        if name in self.cols and not override:
+            return False
+        vals = self.state[src]
+        distinct = list({key_of(v): v for v in vals}.values())
+        if table is None:
             kind = rng.choice(["ints", "strs", "int", "str", "mixed"])
             table = []
             for v in distinct:
@@ -244,17 +275,93 @@ def gen_ops(rng, cols, rows, source):
                 if rng.random() < 0.9:
                     table.append([v, nv])
             default = rng.choice([0, "", "d", [7]])
-            name = entry.lower()
-            if name in cols and not override:
-                continue
-            ops.append({"kind": "add", "entry": entry, "source": spelling(rng, src), "table": table,
-                        "default": default, "override": override})
-            t = {key_of(a): b for a, b in table}
-            state[name] = [t.get(key_of(v), default) for v in vals]
-            if name not in cols:
-                cols.append(name)
-                new.append(name)
-    return ops, cols, new
+        new = [] if name in self.cols else [name]
+        t = {key_of(a): b for a, b in table}
+        self.state[name] = [t.get(key_of(v), default) for v in vals]
+        self.push({"kind": "add", "entry": entry, "source": spelling(rng, src), "table": table,
+                   "default": default, "override": override}, new)
+        return True
+
+    def set(self, col, value=None, rid=None, spelled=None):
+        rng = self.rng
+        k = rng.randrange(len(self.ids))
+        rid = self.ids[k] if rid is None else rid
+        if value is None:
+            value = rng.choice(NEWVALS.get(col, ["", "x", 1]))
+        if col in self.state and rid in self.ids:
+            self.state[col] = list(self.state[col])
+            self.state[col][self.ids.index(rid)] = value
+        self.push({"kind": "set", "id": rid, "col": spelled or self.sp(col), "value": value})
+        return True
+
+
+def gen_ops(rng, cols, rows, source):
+    """The history: add_entries / renumber / wl[id, col] = v steps.  Returns (ops, column names after every
+    step, new column names of every step, focus columns)."""
+    h = _Hist(rng, cols, rows, source)
+    free = [c for c in cols if c not in ("doculect", "concept")]
+    scen = rng.random()
+    if not h.ids:
+        return [], [], [], []
+    if scen < 0.22:
+        # a column is read (every snapshot reads the focus columns), changed in place, and read again
+        col = rng.choice(free)
+        h.focus_on(col)
+        for _ in range(rng.choice([1, 1, 2])):
+            how = rng.random()
+            if how < 0.4:
+                h.add(col, rng.choice(h.cols), True)          # canonical name: no interactive question
+            elif how < 0.8 or col not in ("cogid", "note", "ipa"):
+                h.set(col)
+            else:                                              # renumber INTO the column that was read before
+                src = rng.choice([c for c in ("cogid", "ipa", "note") if c in h.cols and c != col] or [col])
+                if src == col or not h.renum(src, col, True):
+                    h.set(col)
+    elif scen < 0.40:
+        # renumber, change values of the source, renumber again into the same target
+        src = rng.choice([c for c in ("cogid", "ipa", "note") if c in cols])
+        tgt = rng.choice(["", "newid"])
+        name = (tgt or src + "id").lower()
+        h.focus_on(name)
+        if h.renum(src, tgt, False, fixed_spelling=True):
+            for _ in range(rng.choice([1, 1, 2])):
+                if rng.random() < 0.75:
+                    h.set(src, value=rng.choice(NEWVALS[src] + ["!new", "0a", "~"] if src != "cogid"
+                                                else NEWVALS[src] + [-3, 12, "!n"]))
+                else:
+                    h.add(src, rng.choice(h.cols), True)
+            h.renum(src, tgt, True, fixed_spelling=True)
+    else:
+        for _ in range(rng.choice([0, 1, 1, 2])):
+            c = rng.random()
+            if c < 0.3:
+                src = rng.choice([x for x in h.cols if x in ("cogid", "ipa", "note", "newid")] or ["cogid"])
+                tgt = rng.choice(["", "newid", "NewID" if rng.random() < 0.2 else "newid"])
+                h.renum(src, tgt, rng.random() < 0.15)
+            elif c < 0.42:
+                r = rng.random()
+                if r < 0.1:
+                    h.set(rng.choice(free), rid=95)                              # KeyError: no such row
+                elif r < 0.2:
+                    h.set(rng.choice(free), spelled=rng.choice(["zzz", "Cogid"]))  # KeyError: no such column
+                else:
+                    h.set(rng.choice([x for x in h.cols if x not in ("doculect", "concept")]))
+            else:
+                # ("iso" after a column was added under its alias "isocode": the name isocode is then both a
+                #  column of its own and a configured alias of iso - no consistent reading exists; see notes)
+                cands = [x for x in ["xx", "Foo", "tokens", "cogids", "iso", "langid", "partial_ids", "yy"]
+                         if x.lower() not in h.cols and not (x == "iso" and "isocode" in h.cols)]
+                override = rng.random() < 0.2
+                if override and rng.random() < 0.7:
+                    entry = rng.choice([x for x in h.cols if x not in ("doculect", "concept")])
+                else:
+                    entry = rng.choice(cands)
+                if rng.random() < 0.08:
+                    entry = rng.choice(["isocode", "TOKENS", "Partial_IDs"])
+                    if entry.lower() in h.cols or "iso" in h.cols and entry == "isocode":
+                        continue
+                h.add(entry, rng.choice(h.cols), override)
+    return h.ops, h.cols_after, h.news, h.focus
 
 
 # ------------------------------------------------------------------------------------ coding
@@ -381,7 +488,11 @@ def views(wl, q, s, rows, cols):
           "list_col": [[plain(wl.get_list(col=l, entry=s)), plain(wl.get_list(col=l, entry=s, flat=True))]
                        for l in cols],
           "dict_col": [plain(dict(wl.get_dict(col=l, entry=s))) for l in cols],
-          "entries": plain(wl.get_entries(s)) if s else [], "etym": []}
+          "entries": [], "etym": []}
+    if s:
+        via_attr = (q.get("attr") and s.isidentifier() and not s.startswith("_")
+                    and wl._alias.get(s) not in (wl._row_name, wl._col_name))
+        ev["entries"] = plain(getattr(wl, s) if via_attr else wl.get_entries(s))
     for ref in q["refs"]:
         try:
             ev["etym"].append(plain(wl.get_etymdict(ref=ref, entry=s)))
@@ -426,7 +537,7 @@ _tmp_counter = [0]
 
 def run_impl(case):
     from lingpy import Wordlist
-    res = {"snap0": None, "snap1": None, "conv": [], "skeys": []}
+    res = {"snap0": None, "snaps": [None] * len(case["ops"]), "conv": [], "skeys": []}
     try:
         if case["source"] == "file":
             d = os.path.join(env.BUILD, "tmp", "wordlist-%d" % os.getpid())
@@ -444,8 +555,8 @@ def run_impl(case):
         res["ctor_error"] = "%s: %s" % (type(e).__name__, str(e)[:200])
         return res
     res["snap0"] = snapshot(wl, case["q0"])
-    try:
-        for op in case["ops"]:
+    for i, op in enumerate(case["ops"]):
+        try:
             if op["kind"] == "add":
                 t = {key_of(a): b for a, b in op["table"]}
                 default = op["default"]
@@ -454,6 +565,9 @@ def run_impl(case):
                     r = t.get(key_of(plain(x)), default)
                     return list(r) if isinstance(r, list) else r
                 wl.add_entries(op["entry"], op["source"], f, override=op["override"])
+            elif op["kind"] == "set":
+                v = op["value"]
+                wl[op["id"], op["col"]] = list(v) if isinstance(v, list) else v
             else:
                 vals = [plain(wl[k, op["source"]]) for k in wl]
                 strs = sorted(set(str(v) for v in vals))
@@ -463,11 +577,13 @@ def run_impl(case):
                 wl.renumber(op["source"], op["target"], override=op["override"])
                 target = op["target"] or (op["source"] + "id")
                 conv = wl._meta[op["source"] + "2" + target]
-                res["conv"].append([[strs.index(k), v] for k, v in conv.items()])
-    except (KeyError, ValueError, IndexError, EOFError, OSError) as e:
-        res["op_error"] = "%s: %s" % (type(e).__name__, str(e)[:200])
-        return res
-    res["snap1"] = snapshot(wl, case["q1"])
+                # keys the harness did not see among the current values get codes past the end
+                res["conv"].append([[strs.index(k) if k in strs else 900 + j, v]
+                                    for j, (k, v) in enumerate(conv.items())])
+        except (KeyError, ValueError, IndexError, EOFError, OSError) as e:
+            res["op_error"] = "step %d: %s: %s" % (i, type(e).__name__, str(e)[:200])
+            return res
+        res["snaps"][i] = snapshot(wl, case["qs"][i])
     return res
 
 
@@ -535,6 +651,8 @@ def render(case, res):
                 cstr(op["entry"]), cstr(op["source"]),
                 lst([pair(C.cell(a), C.cell(b)) for a, b in op["table"]]), C.cell(op["default"]),
                 L.b(op["override"])))
+        elif op["kind"] == "set":
+            ops.append("(OpSet %s %s %s)" % (zn(op["id"]), cstr(op["col"]), C.cell(op["value"])))
         else:
             sk = res["skeys"][ri] if ri < len(res["skeys"]) else {"table": [], "kempty": -5}
             ri += 1
@@ -542,14 +660,15 @@ def render(case, res):
                 cstr(op["source"]), cstr(op["target"]), L.b(op["override"]),
                 lst([pair(C.cell(v), zn(k)) for v, k in sk["table"]]), zn(sk["kempty"])))
     snap0 = opt(res["snap0"], lambda s: r_snapshot(C, s))
-    snap1 = opt(res["snap1"], lambda s: r_snapshot(C, s))
+    steps = lst(["(%s, %s, %s)" % (o, r_queries(q), opt(sn, lambda s: r_snapshot(C, s)))
+                 for o, q, sn in zip(ops, case["qs"], res["snaps"])])
     conv = lst([lst([pair(zn(a), zn(b)) for a, b in c]) for c in res["conv"]])
     lk, rk = C.keys()                                           # after everything has been coded
     hdr = [h.lower() for h in case["header"]] if case["source"] == "file" else case["header"]
     return "(Build_wl_case %s)" % " ".join([
         lst([cstr(h) for h in hdr]), data,
         lst([pair(zn(a), zn(b)) for a, b in lk]), lst([pair(zn(a), zn(b)) for a, b in rk]),
-        r_queries(case["q0"]), snap0, lst(ops), r_queries(case["q1"]), snap1, conv])
+        r_queries(case["q0"]), snap0, steps, conv])
 
 
 # ------------------------------------------------------------------------------- bookkeeping
@@ -571,13 +690,25 @@ def jsonable(case, res=None):
     return c
 
 
+def _q(q):
+    q = dict(q)
+    q["dst"] = [tuple(x) for x in q["dst"]]
+    q["paps"] = [tuple(x) for x in q["paps"]]
+    return q
+
+
+LIGHT_Q = {"entries": [""], "refs": ["cogid"], "items": [], "iter": [], "dst": [], "paps": []}
+
+
 def from_json(c):
     case = dict(c)
     case.pop("impl", None)
-    for q in ("q0", "q1"):
-        case[q] = dict(case[q])
-        case[q]["dst"] = [tuple(x) for x in case[q]["dst"]]
-        case[q]["paps"] = [tuple(x) for x in case[q]["paps"]]
+    case["q0"] = _q(case["q0"])
+    if "qs" not in case:                     # corpus cases written before per-step snapshots existed
+        n = len(case["ops"])
+        case["qs"] = [dict(LIGHT_Q) for _ in range(max(n - 1, 0))] + ([case.pop("q1")] if n else [])
+        case.pop("q1", None)
+    case["qs"] = [_q(q) for q in case["qs"]]
     return case
 
 
@@ -592,19 +723,19 @@ def _shrink_all(case):
     for i in range(len(case["ops"]) - 1, -1, -1):
         c = dict(case)
         c["ops"] = case["ops"][:i] + case["ops"][i + 1:]
+        c["qs"] = case["qs"][:i] + case["qs"][i + 1:]
         yield c
     if len(rows) > 1:
         for i in range(len(rows)):
             c = dict(case)
             c["rows"] = rows[:i] + rows[i + 1:]
             yield c
-    for q in ("q0", "q1"):
-        for key in ("entries", "items", "paps", "dst"):
-            if len(case[q][key]) > 1:
-                c = dict(case)
-                c[q] = dict(case[q])
-                c[q][key] = case[q][key][:1]
-                yield c
+    for key in ("entries", "items", "paps", "dst"):
+        if len(case["q0"][key]) > 1:
+            c = dict(case)
+            c["q0"] = dict(case["q0"])
+            c["q0"][key] = case["q0"][key][:1]
+            yield c
 
 
 def classify(case, res):
@@ -620,8 +751,12 @@ def classify(case, res):
         out.append("gaps")
     if len(set(x.lower() for x in s["cols"])) < len(s["cols"]) or len(set(x.lower() for x in s["rows"])) < len(s["rows"]):
         out.append("case-collision")
-    if case["ops"] and res["snap1"] is None:
+    if case["ops"] and res["snaps"][-1] is None:
         out.append("op-raised")
+    for op in case["ops"]:
+        out.append("op=" + op["kind"] + ("-override" if op.get("override") else ""))
+    if case.get("focus"):
+        out.append("read-change-read")
     return out
 
 
